@@ -318,13 +318,16 @@ PLANS = {
     "C13": dict(level="fault_enumeration", assumptions=TRUST,
                 mc=[MC("MCTrailer", "MCTrailer.cfg", workers=2)],
                 gen=[G("open", 18, 600, "TraceOpen", "TraceOpen.cfg"),
+                     # the same when the source serves one byte per read / interrupts
+                     G("open", 6, 100, "TraceOpen", "TraceOpen.cfg", extra=["--rsched", "one"]),
+                     G("open", 6, 100, "TraceOpen", "TraceOpen.cfg", extra=["--rsched", "rand43"]),
                      # what the sink holds at any time is a prefix of the finished file, trailer last
                      G("wprefix", 200, 6000, "TraceIO", "TraceIO.cfg")]),
     "C14": dict(level="model_checking", assumptions=TRUST + ["hook H3 re-exports the private codec functions", "the 2^32 sweep evaluates the C14 predicate in the harness; TLC checks that all 256 chunks report zero failures, and re-evaluates the predicate itself on the boundary windows"],
                 mc=[MC("MCVarint", "MCVarint.cfg", workers=4)],
                 gen=[G("varint_sweep", 1, 1, "TraceVarint", "TraceVarint_C14.cfg", heavy=False),
                      G("varint_windows", 4, 16, "TraceVarint", "TraceVarint_C14.cfg"),
-                     G("framing", 121, 150, "TraceCursor", "TraceCursor.cfg")],
+                     G("framing", 169, 200, "TraceCursor", "TraceCursor.cfg")],
                 extra=[apalache_varint]),
     "C15": dict(level="model_checking", assumptions=TRUST + ["independent decoder: sequential walk, codec crates, LEB128 framing parser"],
                 mc=[MC("MCWriter", "MCWriter_sorted_a.cfg", workers=8), MC("MCWriter", "MCWriter_sorted_b.cfg", workers=8)],
